@@ -1119,6 +1119,35 @@ fn sub_box<const D: usize, S: SpaceI<D>>(cfg: &Config, gr: &Grid) -> Sub {
     })
 }
 
+/// boxes with signed and odd corner coordinates (-3..=3): integer centre / half size truncate, and
+/// the rectangle methods must still equal the box methods on the converted value there
+fn sub_box_signed<const D: usize, S: SpaceI<D>>(cfg: &Config, tag: &str) -> Sub {
+    let g = 7u64;
+    let n = g.pow(2 * D as u32);
+    let mut proto = Sub::new(
+        &format!("box_signed{}", tag),
+        &format!("all {} {}-D i32 boxes with corner coordinates in -3..=3 (negative, odd, valid and invalid), one case per box: is_valid/make_valid/made_valid, center/size/half_size (integer division as the element type defines it), both conversions, every Rect accessor/setter and Rect::center == box centre of the converted value; enumerated, hence distinct; non-trivial = the box is not a single point", n, D),
+    )
+    .with_floor(n - g.pow(D as u32));
+    proto.exhaustive = true;
+    run_enum(cfg, proto, n, |s, i| {
+        let mut id = i;
+        let mut a = Bx { min: [0i32; D], max: [0i32; D] };
+        for k in 0..D {
+            a.min[k] = (id % g) as i32 - 3;
+            id /= g;
+        }
+        for k in 0..D {
+            a.max[k] = (id % g) as i32 - 3;
+            id /= g;
+        }
+        run_case(s, S::DIM, "i32", cfg.case_seed(), i, &|| format!("box {:?}", a), |cx| {
+            chk_box::<i32, D, S>(cx, a);
+            Outcome::enumerated(a.min != a.max)
+        });
+    })
+}
+
 fn sub_point<const D: usize, S: Space<i32, D>>(cfg: &Config, gr: &Grid) -> Sub {
     let pts = points::<D>(gr.lo, gr.hi);
     let n = pts.len() as u64;
@@ -1402,6 +1431,8 @@ fn main() {
 
     // 2-D, exhaustive in both tiers
     rep.push(req(sub_box::<2, S2>(&cfg, &G2), &cfg, 0, &REQ_AAB, &[Api::SplitAtX, Api::SplitAtY, Api::RSplitAtX, Api::RSplitAtY]));
+    rep.push(sub_box_signed::<2, S2>(&cfg, "2"));
+    rep.push(sub_box_signed::<3, S3>(&cfg, "3"));
     rep.push(req(sub_point::<2, S2>(&cfg, &G2), &cfg, 0, &[Api::NewEmpty, Api::ContainsPoint], &[]));
     rep.push(req(sub_box_point::<2, S2>(&cfg, &G2), &cfg, 0, &REQ_POINT, &[]));
     rep.push(req(sub_pair::<2, S2>(&cfg, &G2, "pair2", 0, u64::MAX, 4900), &cfg, 0, &REQ_PAIR, &[]));
